@@ -128,3 +128,14 @@ Fixpoint configure (outs : list (str * str)) (s : fs) : res :=
 
 Definition res_state (r : res) : fs := match r with Ok s => s | PyErr _ s => s end.
 Definition is_ok (r : res) : bool := match r with Ok _ => true | PyErr _ _ => false end.
+
+(* n further configure runs, one after the other (a build directory's history of no-change
+   reconfigurations) *)
+Fixpoint configure_n (n : nat) (outs : list (str * str)) (s : fs) : res :=
+  match n with
+  | O => Ok s
+  | S k => match configure outs s with
+           | Ok s' => configure_n k outs s'
+           | e => e
+           end
+  end.
